@@ -78,10 +78,10 @@ func zzKindEntry(id string) CurveConfig {
 	c := CurveConfig{ID: id}
 	k := zzv.Choice("kinds", 8)
 	if k&1 != 0 {
-		c.Linear = &LinearCurveConfig{Sensor: zzv.Id("linear.sensor", 2), Min: 40, Max: 80}
+		c.Linear = &LinearCurveConfig{Sensor: zzv.Id("linear.sensor", 4), Min: 40, Max: 80}
 	}
 	if k&2 != 0 {
-		c.PID = &PidCurveConfig{Sensor: zzv.Id("pid.sensor", 2), SetPoint: 60, P: zzv.Float64("p"), I: zzv.Float64("i"), D: zzv.Float64("d")}
+		c.PID = &PidCurveConfig{Sensor: zzv.Id("pid.sensor", 4), SetPoint: 60, P: zzv.Float64("p"), I: zzv.Float64("i"), D: zzv.Float64("d")}
 	}
 	if k&4 != 0 {
 		c.Function = &FunctionCurveConfig{Type: zzFunctionTypes[zzv.Choice("type", len(zzFunctionTypes))], Curves: []string{zzv.IdName(2)}}
@@ -174,7 +174,7 @@ func ZZ_C11_V1d_DuplicateCurveIds() {
 }
 
 func zzFanEntry(tag string) FanConfig {
-	f := FanConfig{ID: zzv.Id(tag+".id", 3), Curve: zzv.Id(tag+".curve", 3)}
+	f := FanConfig{ID: zzv.Id(tag+".id", 3), Curve: zzv.Id(tag+".curve", 4)}
 	b := zzv.Choice(tag+".backends", 8)
 	if b&1 != 0 {
 		f.HwMon = &HwMonFanConfig{Platform: "p", Index: zzv.Int(tag + ".index"), RpmChannel: zzv.Int(tag + ".rpmChannel"), PwmChannel: zzv.Int(tag + ".pwmChannel")}
